@@ -602,6 +602,35 @@ pub fn gen_driver(prop: &str, rng: &mut Rng, sh: &mut Shards, out: &str, thoroug
                     progs.push((p, lay));
                 }
             }
+            // a segment filled to 64 KiB - 2 .. 64 KiB, then every kind of item: the one that crosses the 64 KiB must be
+            // diagnosed whatever its kind (each kind of definition advances the location counter in a rule of its own)
+            for (fi, fill) in [65534u32, 65535, 65536].iter().enumerate() {
+                for (ki, (dir, form)) in kinds.iter().enumerate() {
+                    let seg = [0u32, 0x2000, 0xFFFF][(fi + ki) % 3];
+                    let mut data: Vec<DataItem> = vec![DataItem::Set(seg)];
+                    if (fi + ki) % 2 == 0 || fill % 2 == 1 {
+                        data.push(DataItem::Def { label: Some("fill_b".into()), dir: "db", form: DataForm::Zero(*fill) });
+                    } else {
+                        data.push(DataItem::Def { label: Some("fill_w".into()), dir: "dw", form: DataForm::Zero(*fill / 2) });
+                    }
+                    data.push(DataItem::Def { label: Some("edge_A".into()), dir, form: form.clone() });
+                    if ki % 2 == 0 {
+                        data.push(DataItem::Def { label: Some("past_w".into()), dir: "dw", form: DataForm::Num(0x1234) });
+                    }
+                    let w: u8 = if *dir == "db" { 8 } else { 16 };
+                    let mut items: Vec<Item> = vec![Item::Label("start".into())];
+                    items.push(Item::Ins(Ins::Mov { w: 16, dst: Opnd::Reg16("ax"), src: Opnd::Imm(seg as i32) }));
+                    items.push(Item::Ins(Ins::Mov { w: 16, dst: Opnd::Sreg("ds"), src: Opnd::Reg16("ax") }));
+                    let r = if w == 8 { Opnd::Reg8("bl") } else { Opnd::Reg16("bx") };
+                    items.push(Item::Ins(Ins::Mov { w, dst: r, src: Opnd::Label { name: "edge_A".into(), off: 0 } }));
+                    items.push(Item::Ins(Ins::Mov { w: 16, dst: Opnd::Reg16("cx"), src: Opnd::Offset { name: "edge_A".into(), off: 0 } }));
+                    items.push(Item::Ins(Ins::Print { what: PrintWhat::Reg }));
+                    let p = Program { data, items, interp: false, stdin: Vec::new(), note: "data-edge-of-segment".into() };
+                    let mut lay = Layout::random(rng);
+                    lay.label_same_line = false;
+                    progs.push((p, lay));
+                }
+            }
             for (seg, room) in [(0xFFFFu32, 16u32), (0xFFFE, 32), (0xFFF0, 256), (0xF001, 0xFFF0)] {
                 for (dir, form) in &kinds {
                     for before in 0..4u32 {
@@ -708,6 +737,41 @@ pub fn gen_driver(prop: &str, rng: &mut Rng, sh: &mut Shards, out: &str, thoroug
         ];
         for (i, s) in big.iter().enumerate() {
             progs.push((Program { data: Vec::new(), items: s.clone(), interp: false, stdin: Vec::new(), note: format!("large-{}", i) }, Layout::plain()));
+        }
+        // procedures have a name space of their own: a procedure may share its name with a data label or with a code
+        // label; CALL goes to the procedure, a jump to the code label, a data operand to the data
+        let inc = |r: &'static str| Item::Ins(Ins::UnArith { op: "inc", w: 16, dst: Opnd::Reg16(r) });
+        for variant in 0..4 {
+            let mut data: Vec<DataItem> = vec![DataItem::Def { label: Some("pad_k".into()), dir: "db", form: DataForm::Fill(3, 5) }];
+            data.push(DataItem::Def { label: Some("shared_N".into()), dir: "dw", form: DataForm::Num(0x0102) });
+            let mut items: Vec<Item> = Vec::new();
+            let body_shared = vec![Item::Ins(Ins::UnArith { op: "inc", w: 16, dst: Opnd::Label { name: "shared_N".into(), off: 0 } }), inc("si")];
+            let body_both = vec![inc("di"), Item::Ins(Ins::Mov { w: 16, dst: Opnd::Reg16("bx"), src: Opnd::Label { name: "shared_N".into(), off: 0 } })];
+            if variant % 2 == 0 {
+                items.push(Item::Proc { name: "shared_N".into(), body: body_shared.clone() });
+                items.push(Item::Proc { name: "both_Q".into(), body: body_both.clone() });
+            }
+            items.push(Item::Label("start".into()));
+            if variant % 2 == 1 {
+                items.push(Item::Ins(Ins::Jcc { mn: "jmp", label: "over_p".into(), target: 0 }));
+                items.push(Item::Proc { name: "both_Q".into(), body: body_both });
+                items.push(Item::Proc { name: "shared_N".into(), body: body_shared });
+                items.push(Item::Label("over_p".into()));
+            }
+            items.push(Item::Ins(Ins::Call { name: "shared_N".into(), target: 0 }));
+            items.push(Item::Ins(Ins::Call { name: "both_Q".into(), target: 0 }));
+            items.push(Item::Ins(Ins::Call { name: "shared_N".into(), target: 0 }));
+            if variant >= 2 {
+                items.push(Item::Ins(Ins::Jcc { mn: "jmp", label: "both_Q".into(), target: 0 }));
+                items.push(Item::Ins(Ins::Mov { w: 16, dst: Opnd::Reg16("dx"), src: Opnd::Imm(0x0BAD) }));
+            }
+            items.push(Item::Label("both_Q".into()));
+            items.push(Item::Ins(Ins::Mov { w: 16, dst: Opnd::Reg16("ax"), src: Opnd::Offset { name: "shared_N".into(), off: 0 } }));
+            items.push(Item::Ins(Ins::Mov { w: 16, dst: Opnd::Reg16("cx"), src: Opnd::Label { name: "shared_N".into(), off: 0 } }));
+            items.push(Item::Ins(Ins::Print { what: PrintWhat::Reg }));
+            let mut lay = Layout::random(rng);
+            lay.label_same_line = false;
+            progs.push((Program { data, items, interp: variant == 3, stdin: if variant == 3 { nexts(rng, 40) } else { Vec::new() }, note: format!("shared-names-{}", variant) }, lay));
         }
     }
     run_batch(&bin, &dir, &progs, rng, sh, &format!("{}-runs", prop), 16);
